@@ -31,6 +31,7 @@ func init() {
 		checkPeerSelection(c)
 		checkFullStateSent(c)
 		checkSuspectPiggyback(c)
+		checkReaper(c, "C05") // dead / left records are kept (gossiped to, shipped by push/pull, able to reject stale claims) for GossipToTheDeadTime
 		// what is learned is merged and re-gossiped
 		checkMerge(c, "C05")
 		checkPacketDelivery(c, "C05")
